@@ -243,6 +243,39 @@ def drive_concurrent(chunk_lists, make_operator, order):
     return [(outs[i], terms[i][0] if terms[i] else None) for i in range(k)]
 
 
+def dump_concurrently(item_lists, dump_operators, order):
+    """K writers alive at the same time, each fed from its own hot Subject; `order` (merge_order) decides whose next
+    item (or completion) is delivered.  Returns the list of terminals [('completed',) | ('error', e) | None]."""
+    k = len(item_lists)
+    subjects = [Subject() for _ in range(k)]
+    terms = [None] * k
+
+    def done(i):
+        terms[i] = ('completed',)
+
+    def failed(i, e):
+        terms[i] = ('error', e)
+    for i in range(k):
+        subjects[i].pipe(dump_operators[i]).subscribe(on_next=lambda _: None, on_error=(lambda e, i=i: failed(i, e)),
+                                                      on_completed=(lambda i=i: done(i)))
+    pos = [0] * k
+    try:
+        for i in order:
+            if pos[i] < len(item_lists[i]):
+                subjects[i].on_next(item_lists[i][pos[i]])
+            elif pos[i] == len(item_lists[i]):
+                subjects[i].on_completed()
+            pos[i] += 1
+    except Exception as e:
+        from .core import innermost_in_verif
+        if innermost_in_verif(e):
+            raise
+        for i in range(k):
+            if terms[i] is None:
+                terms[i] = ('escaped', e)
+    return terms
+
+
 def dump_then_load_on_completion(items, dump_operator, make_load, disk):
     """Pushes the items through `dump_operator` from a hot Subject (no trampoline) and, from inside the completion
     callback of that subscription, runs `make_load()` - 'an acknowledged write is readable': when the writer says it is
